@@ -172,7 +172,39 @@ def mk(t):
     return SReal(t)
 
 
-class SReal(object):
+
+class _ScalarAPI(object):
+    """the bits of numpy's array-scalar interface that library code uses on
+    the result of a reduction (np.std(x).ravel(), (s == 0).ravel(), ...)"""
+    __slots__ = ()
+    shape = ()
+    ndim = 0
+    size = 1
+
+    def _arr(self):
+        a = np.empty(1, dtype=object)
+        a[0] = self
+        from .proxy import sa
+        return sa(a)
+
+    def ravel(self, *a, **k): return self._arr()
+    def flatten(self, *a, **k): return self._arr()
+    def reshape(self, *shape, **k):
+        if len(shape) == 1 and isinstance(shape[0], (tuple, list)):
+            shape = tuple(shape[0])
+        return self._arr().reshape(shape) if shape not in ((), ((),)) else self
+    def item(self): return self
+    def copy(self): return self
+    def squeeze(self, *a, **k): return self
+    def any(self, *a, **k): return self
+    def all(self, *a, **k): return self
+    def sum(self, *a, **k): return self
+    def max(self, *a, **k): return self
+    def min(self, *a, **k): return self
+    def mean(self, *a, **k): return self
+
+
+class SReal(_ScalarAPI):
     __slots__ = ('t',)
 
     def __init__(self, t):
@@ -318,6 +350,24 @@ class SReal(object):
 
 
 numbers.Real.register(SReal)
+for _n in ('ravel', 'flatten', 'reshape', 'item', 'copy', 'squeeze', '_arr'):
+    setattr(Q, _n, getattr(_ScalarAPI, _n))
+Q.shape, Q.ndim, Q.size = (), 0, 1
+
+
+def _q_cmp(name):
+    base = getattr(Fraction, name)
+
+    def f(self, o):
+        if isinstance(o, (SReal, SBool, np.ndarray)):
+            return NotImplemented
+        r = base(self, o)
+        return r if r is NotImplemented else np.bool_(r)
+    return f
+
+
+for _n in ('__eq__', '__ne__', '__lt__', '__le__', '__gt__', '__ge__'):
+    setattr(Q, _n, _q_cmp(_n))
 
 
 def arith(op, a, b):
@@ -439,7 +489,7 @@ def liftb(x):
     raise EngineGap('cannot lift %r to a symbolic bool' % (x,))
 
 
-class SBool(object):
+class SBool(_ScalarAPI):
     __slots__ = ('b',)
 
     def __init__(self, b):
@@ -874,8 +924,8 @@ class Engine(object):
                 return float('nan')
             rt = Fraction(math.isqrt(fr.numerator), math.isqrt(fr.denominator))
             if rt * rt == fr:
-                return int(rt) if rt.denominator == 1 else rt
-            return math.sqrt(fr)
+                return Q(rt)
+            return Q(math.sqrt(fr))
         r = self.app('sqrt', x)
         from . import poly
         rid = r.t.get_id()
